@@ -178,17 +178,18 @@ func decodeKeyCharByUnicodeRune(buf []byte, cursor int64) ([]byte, int64, error)
 		return nil, 0, errors.ErrUnexpectedEndOfJSON("escaped string", cursor)
 	}
 
+	// the returned cursor is the position of the last character consumed
 	r := unicodeToRune(buf[cursor : cursor+defaultOffset])
 	if utf16.IsSurrogate(r) {
-		cursor += defaultOffset
-		if cursor+surrogateOffset >= int64(len(buf)) || buf[cursor] != '\\' || buf[cursor+1] != 'u' {
-			return []byte(string(unicode.ReplacementChar)), cursor + defaultOffset - 1, nil
+		// a second \uXXXX right behind the first one may complete the pair
+		next := cursor + defaultOffset
+		if next+surrogateOffset <= int64(len(buf)) && buf[next] == '\\' && buf[next+1] == 'u' {
+			r2 := unicodeToRune(buf[next+2 : next+surrogateOffset])
+			if r := utf16.DecodeRune(r, r2); r != unicode.ReplacementChar {
+				return []byte(string(r)), next + surrogateOffset - 1, nil
+			}
 		}
-		cursor += 2
-		r2 := unicodeToRune(buf[cursor : cursor+defaultOffset])
-		if r := utf16.DecodeRune(r, r2); r != unicode.ReplacementChar {
-			return []byte(string(r)), cursor + defaultOffset - 1, nil
-		}
+		return []byte(string(unicode.ReplacementChar)), cursor + defaultOffset - 1, nil
 	}
 	return []byte(string(r)), cursor + defaultOffset - 1, nil
 }
@@ -572,23 +573,25 @@ func decodeKeyCharByUnicodeRuneStream(s *Stream) ([]byte, error) {
 		}
 	}
 
+	// the cursor is left on the last character consumed
 	r := unicodeToRune(s.buf[s.cursor : s.cursor+defaultOffset])
 	if utf16.IsSurrogate(r) {
-		s.cursor += defaultOffset
-		for s.cursor+surrogateOffset >= s.length {
+		// a second \uXXXX right behind the first one may complete the pair
+		for s.cursor+defaultOffset+surrogateOffset >= s.length {
 			if !s.read() {
 				break
 			}
 		}
-		if s.cursor+surrogateOffset >= s.length || s.buf[s.cursor] != '\\' || s.buf[s.cursor+1] != 'u' {
-			s.cursor += defaultOffset - 1
-			return []byte(string(unicode.ReplacementChar)), nil
+		next := s.cursor + defaultOffset
+		if next+surrogateOffset <= s.length && s.buf[next] == '\\' && s.buf[next+1] == 'u' {
+			r2 := unicodeToRune(s.buf[next+2 : next+surrogateOffset])
+			if r := utf16.DecodeRune(r, r2); r != unicode.ReplacementChar {
+				s.cursor = next + surrogateOffset - 1
+				return []byte(string(r)), nil
+			}
 		}
-		r2 := unicodeToRune(s.buf[s.cursor+defaultOffset+2 : s.cursor+surrogateOffset])
-		if r := utf16.DecodeRune(r, r2); r != unicode.ReplacementChar {
-			s.cursor += defaultOffset - 1
-			return []byte(string(r)), nil
-		}
+		s.cursor += defaultOffset - 1
+		return []byte(string(unicode.ReplacementChar)), nil
 	}
 	s.cursor += defaultOffset - 1
 	return []byte(string(r)), nil
